@@ -8,7 +8,7 @@ from harness.core import enc_str, dec_str
 
 PROPERTY = "C11"
 READY = True
-THEOREMS = ["C11.consts_ok", "C11.wf_checked", "C11.json_domain_in_python_domain", "C11.no_loss", "C11.read_render", "C11.int_text", "C11.norm_perm", "C11.key_order", "C11.keys_sorted", "C11.lines",
+THEOREMS = ["C11.consts_ok", "C11.wf_checked", "C11.distinct_checked", "C11.json_domain_in_python_domain", "C11.no_loss", "C11.read_render", "C11.int_text", "C11.norm_perm", "C11.key_order", "C11.keys_sorted", "C11.lines",
             "C11.lines_own_chunks", "C11.read_lines", "C11.sort_then_render", "C11.one_line_fits", "C11.chunk_classes",
             "C11.text_determines_value"]
 RULE = ("one value per case, printed in both modes and consumed in every way a caller can (whole text, str(), lines "
@@ -40,6 +40,13 @@ ASSUMPTIONS = ["str() of a finite float follows the JSON number grammar, is not 
                "json.loads / ast.literal_eval read a decimal integer text as that integer (the reader's intOf? is the "
                "specification of it; compared with both parsers on every printed text)",
                "Python's == on dicts ignores the order of entries (C11.norm_perm states the permutation)",
+               "the keys of every dict are pairwise distinct (hypothesis DistinctKeys of C11.keys_sorted; true of every "
+               "Python dict; decided by distinctB — C11.distinct_checked — which the driver evaluates on every request, "
+               "and the adapter asserts that no two keys of a generated dict collide, e.g. 1 and True)",
+               "no int has more than sys.get_int_max_str_digits() = 4300 decimal digits: CPython's str() raises "
+               "ValueError beyond that, the model's showInt has no limit; such values are outside the domain (the "
+               "oracle skips them, the driver answers err ValueError like the real printer; both sides of the boundary "
+               "are generated)",
                "dict keys are strings, ints, True/False/None (float and tuple keys are not modelled and not generated: "
                "a float is text in the model and cannot be ordered there)"]
 
@@ -141,6 +148,9 @@ def translate(repo):
 
 
 # ------------------------------------------------------------------ value <-> protocol
+_STR_LIMIT = 10 ** 4300                    # first int CPython's str() refuses with the default limit
+
+
 def enc_val(v):
     """postfix program of a JSON-like value; a container object met again is sent as a reference
     (`r:<k>` = the k-th container completed so far) so that sharing survives the protocol"""
@@ -157,7 +167,10 @@ def enc_val(v):
         elif isinstance(x, str):
             out.append("s:" + enc_str(x))
         elif isinstance(x, int):
-            out.append("i:%d" % x)
+            if abs(x) >= _STR_LIMIT:        # str() refuses it: hexadecimal has no limit
+                out.append("x:" + ("-" if x < 0 else "") + hex(abs(x))[2:])
+            else:
+                out.append("i:%d" % x)
         elif isinstance(x, float):
             out.append("n:" + enc_str(str(x)))
         else:
@@ -203,6 +216,8 @@ def dec_val(tokens):
             st.append(dec_str(t[2:]))
         elif t.startswith("i:"):
             st.append(int(t[2:]))
+        elif t.startswith("x:"):
+            st.append(int(t[2:], 16))
         elif t.startswith("n:"):
             st.append(float(dec_str(t[2:])))
         elif t.startswith("l:"):
@@ -573,6 +588,31 @@ _WHICH = {"pp": "", "ps": "-str", "pa": "-text-after-iteration", "ln": "-lines",
           "lp": "-lines-after-text", "lz": "-two-results-in-lock-step"}
 
 
+def _unprintable_int(v):
+    """the value holds an int that CPython's str() refuses (more than sys.get_int_max_str_digits() digits):
+    outside the domain of C11 (the real printer raises ValueError; the driver answers the same)"""
+    import sys
+    lim = sys.get_int_max_str_digits() if hasattr(sys, "get_int_max_str_digits") else 0
+    if not lim:
+        return False
+    seen = set()
+
+    def go(x):
+        if isinstance(x, bool):
+            return False
+        if isinstance(x, int):
+            return abs(x) >= 10 ** lim
+        if isinstance(x, (list, dict)):
+            if id(x) in seen:
+                return False
+            seen.add(id(x))
+            if isinstance(x, dict):
+                return any(go(k) or go(y) for k, y in x.items())
+            return any(go(y) for y in x)
+        return False
+    return go(v)
+
+
 def oracle(case, replies):
     wholes = {}
     for line, rep in zip(case["lines"], replies):
@@ -580,6 +620,8 @@ def oracle(case, replies):
         if op not in _WHICH:
             continue
         value = dec_val(rest)
+        if _unprintable_int(value):
+            continue                        # outside the domain (ASSUMPTIONS); the correspondence still compares
         which = ("json" if mode == "j" else "python") + _WHICH[op]
         if not rep.startswith("ok "):
             return "%s-fails: printing raised %s" % (which, rep)
@@ -1131,6 +1173,12 @@ def gen_cases(rng, tier):
         depth = rng.choice([0, 1, 3])
         v = [rng.choice(_HUGE + [1, 2.5, "s"]) for _ in range(rng.choice([1, 3, 12]))]
         yield mk(_wrap(rng, v if rng.random() < 0.6 else {"n": v, "m": rng.choice(_HUGE)}, depth), "huge-int", 2 * depth)
+    # 15. CPython's str(int) limit (4300 digits): the last printable int and the first one that raises ValueError
+    #     (outside the domain: oracle skips, the driver answers `err ValueError` like the real code)
+    for n in (10 ** 4299, -(10 ** 4299), 10 ** 4300 - 1, 10 ** 4300, -(10 ** 4300), 10 ** 5000):
+        yield mk(n, "int-str-limit")
+        yield mk([1, {"k": [n]}], "int-str-limit")
+        yield mk({n: "key", "s": 1}, "int-str-limit")
     # 12. the same container object at several places of the value
     for _ in range(200 if quick else 4000):
         v = _shared_values(rng, lim_w)
@@ -1295,7 +1343,9 @@ LEVEL_TEXT = ("For every JSON-like value (any nesting, size and offset; strings 
               "Keyword tables, thresholds and indentation are re-read from ak/ppobj.py on every run; model = code (exact "
               "text, lines in nine consumption orders, call sequences, chunk lists with classes at offsets 0..40) and "
               "reader = json.loads / ast.literal_eval are established by differential runs.")
-LEVEL_NOTE = ("Kernel-checked theorems (axioms propext, Classical.choice, Quot.sound): C11.consts_ok, wf_checked, no_loss, "
+LEVEL_NOTE = ("Kernel-checked theorems (axioms propext, Classical.choice, Quot.sound): C11.consts_ok, wf_checked, "
+              "distinct_checked (keys_sorted assumes pairwise distinct keys in every dict - met by every Python dict and "
+              "checked by the driver on every request), no_loss, "
               "json_domain_in_python_domain, read_render, int_text, norm_perm, key_order, keys_sorted, lines, lines_own_chunks, read_lines, sort_then_render, "
               "one_line_fits, chunk_classes, text_determines_value. Resting on the sampled correspondence only: that the "
               "Lean model computes the text / lines / chunks of the real printer (compared character by character on ~5k "
